@@ -239,6 +239,9 @@ def origAt (f : Fld) (p : V3) : List Rat :=
 /-- centre of cell `k` on axis `a`, relative to the region centre -/
 def centreRel (m : Mesh) (a k : Nat) : Rat := m.region.lo a + ((k : Rat) + 1/2) * m.cellAt a - centreAt m a
 
+/-- centre of cell `k` on axis `a` (absolute coordinate) -/
+def centreAbs (m : Mesh) (a k : Nat) : Rat := m.region.lo a + ((k : Rat) + 1/2) * m.cellAt a
+
 /-- trilinear interpolation between the centres of the cells `k` and `k + 1` (per axis) at
 normalised offsets `t` -/
 def cellInterp (f : Fld) (c k0 k1 k2 : Nat) (t0 t1 t2 : Rat) : Rat :=
@@ -297,6 +300,19 @@ def step (s : Rotator) : Op → Rotator × Option Err
 def run (s : Rotator) : List Op → Rotator
   | [] => s
   | op :: ops => run (step s op).1 ops
+
+/-! ### spec layer of the state machine -/
+
+/-- ordered product of rotations listed in call order: later rotations on the left -/
+def prodL : List M3 → M3
+  | [] => M3.one
+  | Q :: Qs => (prodL Qs).mul Q
+
+/-- the rotations issued since the last `clear`, in call order (`cur` = those seen so far) -/
+def seg : List M3 → List Op → List M3
+  | cur, [] => cur
+  | cur, .rotate Q _ :: ops => seg (cur ++ [Q]) ops
+  | _, .clear :: ops => seg [] ops
 
 /-- distance (in cells) of a back-rotated centre from the inside/outside faces of the
 padded box — the boundary comparator's margin -/
